@@ -61,6 +61,7 @@ func (fr *Frame) wr2(st *State, heap, row, idx, val string) {
 	fc := fr.fc
 	fc.logWrite(heap, row)
 	cur := fc.get(st, heap)
+	fc.noteRead(cur, row)
 	fc.setDef(st, "true", heap, sStore(cur, row, sStore(sSel(cur, row), idx, val)))
 }
 
@@ -184,7 +185,7 @@ func (fr *Frame) subRef(base string, root types.Type, path string) string {
 	k := "subfact:" + t
 	if !fc.declSet[k] {
 		fc.declSet[k] = true
-		fc.addFact("true", sAnd(
+		fc.permFact(sAnd(
 			sApp("<", t, "0"),
 			sEq(sApp(fn+"_inv", t), base),
 			sEq(sApp("subtag", t), fmt.Sprint(id)),
@@ -228,11 +229,22 @@ func (fr *Frame) loadLoc(st *State, l *Loc) Val {
 	fc := fr.fc
 	switch l.Kind {
 	case LField:
-		return Val{S: sSel(fc.get(st, l.Heap), l.Base), Typ: l.Elem}
+		return Val{S: fc.rd(st, l.Heap, l.Base), Typ: l.Elem}
 	case LElem:
-		return Val{S: sSel(sSel(fc.get(st, l.Heap), l.Base), l.Idx), Typ: l.Elem}
+		return Val{S: sSel(fc.rd(st, l.Heap, l.Base), l.Idx), Typ: l.Elem}
 	case LGlobal:
 		return Val{S: fc.get(st, l.Heap), Typ: l.Elem}
+	case LElemObj:
+		u, ok := l.Elem.Underlying().(*types.Struct)
+		if !ok {
+			fc.unsupported("element object of non-struct type")
+			return Val{S: "0", Typ: l.Elem}
+		}
+		v := Val{Typ: l.Elem, IsAg: true}
+		for i := 0; i < u.NumFields(); i++ {
+			v.Agg = append(v.Agg, fr.loadLoc(st, fr.fieldOf(l, u.Field(i))))
+		}
+		return v
 	case LObj:
 		t := l.Elem
 		if isBigInt(t) {
@@ -248,7 +260,8 @@ func (fr *Frame) loadLoc(st *State, l *Loc) Val {
 			v := Val{Typ: t, IsAg: true}
 			for i := 0; i < u.NumFields(); i++ {
 				f := u.Field(i)
-				sub := fr.fieldLoc(l.Base, root, l.Path, f)
+				_ = root
+				sub := fr.fieldOf(l, f)
 				v.Agg = append(v.Agg, fr.loadLoc(st, sub))
 			}
 			return v
@@ -257,12 +270,12 @@ func (fr *Frame) loadLoc(st *State, l *Loc) Val {
 			fc.regVar(h, arr2Sort(sortOf(u.Elem())))
 			id := fc.freshConst("arrval", "Int")
 			fr.declArrContents(sortOf(u.Elem()))
-			fc.addFact("true", sEq(sApp("arrcontents_"+sortOf(u.Elem()), id), sSel(fc.get(st, h), l.Base)))
+			fc.addFact("true", sEq(sApp("arrcontents_"+sortOf(u.Elem()), id), fc.rd(st, h, l.Base)))
 			return Val{S: id, Typ: t}
 		default:
 			h := heapBox(t)
 			fc.regVar(h, arrSort(sortOf(t)))
-			return Val{S: sSel(fc.get(st, h), l.Base), Typ: t}
+			return Val{S: fc.rd(st, h, l.Base), Typ: t}
 		}
 	}
 	fc.unsupported("load from unknown loc")
@@ -279,8 +292,39 @@ func (fr *Frame) declArrContents(sort string) {
 }
 
 func (fr *Frame) fieldLoc(base string, root types.Type, path string, f *types.Var) *Loc {
+	return fr.fieldOf(&Loc{Kind: LObj, Base: base, Root: root, Path: path}, f)
+}
+
+func elemFieldHeap(fc *FnCtx, root types.Type, path string, ft types.Type) string {
+	h := "EF:" + typeKey(root) + path
+	heapValType[h] = ft
+	fc.regVar(h, arr2Sort(sortOf(ft)))
+	return h
+}
+
+// fieldOf: location of field f inside the struct object denoted by parent (LObj or LElemObj)
+func (fr *Frame) fieldOf(parent *Loc, f *types.Var) *Loc {
 	ft := f.Type()
-	np := path + "." + f.Name()
+	np := parent.Path + "." + f.Name()
+	root := parent.Root
+	if root == nil {
+		root = parent.Elem
+	}
+	if parent.Kind == LElemObj {
+		if isBigInt(ft) {
+			fr.fc.unsupported("big.Int embedded by value in a slice element")
+			return &Loc{Kind: LObj, Base: "0", Elem: ft, Root: ft}
+		}
+		switch ft.Underlying().(type) {
+		case *types.Struct:
+			return &Loc{Kind: LElemObj, Base: parent.Base, Idx: parent.Idx, Root: root, Path: np, Elem: ft}
+		case *types.Array:
+			fr.fc.unsupported("array embedded in a slice element")
+			return &Loc{Kind: LObj, Base: "0", Elem: ft, Root: ft}
+		}
+		return &Loc{Kind: LElem, Base: parent.Base, Idx: parent.Idx, Heap: elemFieldHeap(fr.fc, root, np, ft), Elem: ft}
+	}
+	base := parent.Base
 	if isBigInt(ft) {
 		s := fr.subRef(base, root, np)
 		return &Loc{Kind: LObj, Base: s, Elem: ft, Root: ft}
@@ -304,6 +348,21 @@ func (fr *Frame) storeLoc(st *State, l *Loc, v Val) {
 		fr.wr2(st, l.Heap, l.Base, l.Idx, fr.scalar(v))
 	case LGlobal:
 		fr.wrScalar(st, l.Heap, fr.scalar(v))
+	case LElemObj:
+		u, ok := l.Elem.Underlying().(*types.Struct)
+		if !ok {
+			fc.unsupported("element object of non-struct type")
+			return
+		}
+		for i := 0; i < u.NumFields(); i++ {
+			var fv Val
+			if v.IsAg && i < len(v.Agg) {
+				fv = v.Agg[i]
+			} else {
+				fv = fr.havocVal(u.Field(i).Type(), "fld")
+			}
+			fr.storeLoc(st, fr.fieldOf(l, u.Field(i)), fv)
+		}
 	case LObj:
 		t := l.Elem
 		if isBigInt(t) {
@@ -318,7 +377,8 @@ func (fr *Frame) storeLoc(st *State, l *Loc, v Val) {
 			}
 			for i := 0; i < u.NumFields(); i++ {
 				f := u.Field(i)
-				sub := fr.fieldLoc(l.Base, root, l.Path, f)
+				_ = root
+				sub := fr.fieldOf(l, f)
 				var fv Val
 				if v.IsAg && i < len(v.Agg) {
 					fv = v.Agg[i]
@@ -366,17 +426,14 @@ func (fr *Frame) zeroInit(st *State, l *Loc) {
 		if root == nil {
 			root = t
 		}
+		_ = root
 		for i := 0; i < u.NumFields(); i++ {
-			fr.zeroInit(st, fr.fieldLoc(l.Base, root, l.Path, u.Field(i)))
+			fr.zeroInit(st, fr.fieldOf(l, u.Field(i)))
 		}
 	case *types.Array:
-		h := heapElem(u.Elem())
-		fc.regVar(h, arr2Sort(sortOf(u.Elem())))
-		if isAggType(u.Elem()) {
-			fc.unsupported("array of aggregates")
-			return
+		for _, eh := range fr.elemHeaps(u.Elem()) {
+			fr.wrRow(st, eh.heap, l.Base, fmt.Sprintf("((as const (Array Int %s)) %s)", eh.sort, zeroTerm(eh.typ)))
 		}
-		fr.wrRow(st, h, l.Base, fmt.Sprintf("((as const (Array Int %s)) %s)", sortOf(u.Elem()), zeroTerm(u.Elem())))
 	default:
 		if l.Kind == LObj {
 			h := heapBox(t)
@@ -457,6 +514,10 @@ func (fr *Frame) mergeStates(preds []*ssa.BasicBlock, to *ssa.BasicBlock) *State
 		}
 		c := fc.freshConst(k, fc.sortOfVar(k))
 		fc.addFact("true", sEq(c, acc))
+		if fc.parents == nil {
+			fc.parents = map[string][]string{}
+		}
+		fc.parents[c] = append(fc.parents[c], terms...)
 		out.vars[k] = c
 	}
 	return out
@@ -746,7 +807,11 @@ func (fr *Frame) enterLoop(h *ssa.BasicBlock, li *loopInfo, order []*ssa.BasicBl
 		for _, e := range exc {
 			conds = append(conds, sNot(sEq("r", e)))
 		}
-		fc.addFact("true", fmt.Sprintf("(forall ((r Int)) (! (=> %s (= (select %s r) (select %s r))) :pattern ((select %s r))))", sAnd(conds...), nv, pre, nv))
+		if fc.frames == nil {
+			fc.frames = map[string]frameInfo{}
+		}
+		fc.frames[nv] = frameInfo{pre: pre, alloc: allocPre, exc: exc}
+		fc.facts = append(fc.facts, Fact{Guard: "true", Term: fmt.Sprintf("(forall ((r Int)) (! (=> %s (= (select %s r) (select %s r))) :pattern ((select %s r))))", sAnd(conds...), nv, pre, nv), Class: "frameq"})
 	}
 	_ = saveCounter
 	fr.flushClosed(st)
@@ -796,12 +861,12 @@ func (fr *Frame) exec(b *ssa.BasicBlock, st *State, ins ssa.Instruction) {
 	case *ssa.FieldAddr:
 		p := fr.val(x.X)
 		l := fr.locOf(p)
-		if l.Kind != LObj {
+		if l.Kind != LObj && l.Kind != LElemObj {
 			fc.unsupported("FieldAddr on non-object")
 			fr.env[x] = fr.havocVal(x.Type(), "fa")
 			return
 		}
-		if l.Path == "" {
+		if l.Kind == LObj && l.Path == "" {
 			fr.ob("nil", fr.src(x.Pos(), x.Name()), b, sNot(sEq(l.Base, "0")), x.Pos())
 		}
 		stt := x.X.Type().Underlying().(*types.Pointer).Elem().Underlying().(*types.Struct)
@@ -809,7 +874,8 @@ func (fr *Frame) exec(b *ssa.BasicBlock, st *State, ins ssa.Instruction) {
 		if root == nil {
 			root = l.Elem
 		}
-		nl := fr.fieldLoc(l.Base, root, l.Path, stt.Field(x.Field))
+		_ = root
+		nl := fr.fieldOf(l, stt.Field(x.Field))
 		v := Val{Typ: x.Type(), Loc: nl}
 		if nl.Kind == LObj && nl.Path == "" {
 			v.S = nl.Base
@@ -973,12 +1039,8 @@ func (fr *Frame) regMap(mt types.Type) {
 func (fr *Frame) newSlice(st *State, el types.Type, n, c string, t types.Type, hint string) Val {
 	fc := fr.fc
 	a := fr.alloc(st, "arr")
-	h := heapElem(el)
-	fc.regVar(h, arr2Sort(sortOf(el)))
-	if isAggType(el) {
-		fc.unsupported("slice of aggregates %s", el)
-	} else {
-		fr.wrRow(st, h, a, fmt.Sprintf("((as const (Array Int %s)) %s)", sortOf(el), zeroTerm(el)))
+	for _, eh := range fr.elemHeaps(el) {
+		fr.wrRow(st, eh.heap, a, fmt.Sprintf("((as const (Array Int %s)) %s)", eh.sort, zeroTerm(eh.typ)))
 	}
 	s := fc.freshConst("sl_"+hint, "Int")
 	fc.addFact("true", sAnd(sEq(sApp("sl_arr", s), a), sEq(sApp("sl_off", s), "0"), sEq(sApp("sl_len", s), n), sEq(sApp("sl_cap", s), c), sNot(sEq(s, "0"))))
@@ -1008,7 +1070,7 @@ func (fr *Frame) makeIface(st *State, v Val, it types.Type) Val {
 	k := "ifacefact:" + id
 	if !fc.declSet[k] {
 		fc.declSet[k] = true
-		fc.addFact("true", sAnd(sEq(sApp("itype", id), fmt.Sprint(tag)), sEq(sApp("ipay", id), pay), sNot(sEq(id, "0"))))
+		fc.permFact(sAnd(sEq(sApp("itype", id), fmt.Sprint(tag)), sEq(sApp("ipay", id), pay), sNot(sEq(id, "0"))))
 	}
 	return Val{S: id, Typ: it}
 }
@@ -1233,7 +1295,7 @@ func (fr *Frame) bseqOf(st *State, s Val) string {
 	h := heapElem(el)
 	fc.regVar(h, arr2Sort(sortOf(el)))
 	id := fr.scalar(s)
-	return sApp("bseq", sSel(fc.get(st, h), sApp("sl_arr", id)), sApp("sl_off", id), sApp("sl_len", id))
+	return sApp("bseq", fc.rd(st, h, sApp("sl_arr", id)), sApp("sl_off", id), sApp("sl_len", id))
 }
 
 // newSliceFresh: fresh slice with unknown contents
@@ -1257,6 +1319,10 @@ func (fr *Frame) execIndexAddr(b *ssa.BasicBlock, st *State, x *ssa.IndexAddr) {
 		s := fr.scalar(base)
 		fr.ob("index", fr.src(x.Pos(), x.Name()), b, sAnd(sApp("<=", "0", idx), sApp("<", idx, sApp("sl_len", s))), x.Pos())
 		el := u.Elem()
+		if _, isStruct := el.Underlying().(*types.Struct); isStruct && !isBigInt(el) {
+			fr.env[x] = Val{Typ: x.Type(), Loc: &Loc{Kind: LElemObj, Base: sApp("sl_arr", s), Idx: sApp("+", sApp("sl_off", s), idx), Root: el, Elem: el}}
+			return
+		}
 		if isAggType(el) {
 			fc.unsupported("slice of aggregates %s", el)
 			fr.env[x] = fr.havocVal(x.Type(), "ia")
@@ -1271,12 +1337,16 @@ func (fr *Frame) execIndexAddr(b *ssa.BasicBlock, st *State, x *ssa.IndexAddr) {
 		fr.ob("nil", fr.src(x.Pos(), x.Name()), b, sNot(sEq(l.Base, "0")), x.Pos())
 		fr.ob("index", fr.src(x.Pos(), x.Name()), b, sAnd(sApp("<=", "0", idx), sApp("<", idx, fmt.Sprint(at.Len()))), x.Pos())
 		el := at.Elem()
-		h := heapElem(el)
-		fc.regVar(h, arr2Sort(sortOf(el)))
 		ref := l.Base
 		if l.Path != "" {
 			ref = fr.subRef(l.Base, l.Root, l.Path)
 		}
+		if _, isStruct := el.Underlying().(*types.Struct); isStruct && !isBigInt(el) {
+			fr.env[x] = Val{Typ: x.Type(), Loc: &Loc{Kind: LElemObj, Base: ref, Idx: idx, Root: el, Elem: el}}
+			return
+		}
+		h := heapElem(el)
+		fc.regVar(h, arr2Sort(sortOf(el)))
 		fr.env[x] = Val{Typ: x.Type(), Loc: &Loc{Kind: LElem, Base: ref, Idx: idx, Heap: h, Elem: el}}
 	default:
 		fc.unsupported("IndexAddr on %s", x.X.Type())
@@ -1424,13 +1494,13 @@ func (fr *Frame) execTypeAssert(b *ssa.BasicBlock, st *State, x *ssa.TypeAssert)
 
 func (fr *Frame) mapPresent(st *State, mt types.Type, m, k string) string {
 	fr.regMap(mt)
-	return sAnd(sNot(sEq(m, "0")), sSel(sSel(fr.fc.get(st, heapMapP(mt)), m), k))
+	return sAnd(sNot(sEq(m, "0")), sSel(fr.fc.rd(st, heapMapP(mt), m), k))
 }
 
 func (fr *Frame) mapValue(st *State, mt types.Type, m, k string) string {
 	fr.regMap(mt)
 	el := mt.Underlying().(*types.Map).Elem()
-	return sIte(fr.mapPresent(st, mt, m, k), sSel(sSel(fr.fc.get(st, heapMapV(mt)), m), k), zeroTerm(el))
+	return sIte(fr.mapPresent(st, mt, m, k), sSel(fr.fc.rd(st, heapMapV(mt), m), k), zeroTerm(el))
 }
 
 func (fr *Frame) execLookup(b *ssa.BasicBlock, st *State, x *ssa.Lookup) {
@@ -1481,7 +1551,7 @@ func (fr *Frame) execNext(b *ssa.BasicBlock, st *State, x *ssa.Next) {
 	mp := mt.Underlying().(*types.Map)
 	ok := fc.freshConst("next_ok", "Bool")
 	k := fc.freshConst("next_k", "Int")
-	seen := sSel(fc.get(st, hIter), it)
+	seen := fc.rd(st, hIter, it)
 	present := func(key string) string { return fr.mapPresent(st, mt, m, key) }
 	fr.assume(b, sImp(ok, sAnd(present(k), sNot(sSel(seen, k)))))
 	fr.assume(b, sImp(sNot(ok), fmt.Sprintf("(forall ((kk Int)) (! (=> %s (select %s kk)) :pattern ((select %s kk))))", present("kk"), seen, seen)))
@@ -1498,7 +1568,7 @@ func (fr *Frame) execNext(b *ssa.BasicBlock, st *State, x *ssa.Next) {
 }
 
 func (fr *Frame) mapValueRaw(st *State, mt types.Type, m, k string) string {
-	return sSel(sSel(fr.fc.get(st, heapMapV(mt)), m), k)
+	return sSel(fr.fc.rd(st, heapMapV(mt), m), k)
 }
 
 func (fr *Frame) execSelect(b *ssa.BasicBlock, st *State, x *ssa.Select) {
@@ -1519,4 +1589,35 @@ func (fr *Frame) execSelect(b *ssa.BasicBlock, st *State, x *ssa.Select) {
 	fr.assume(b, sAnd(sApp("<=", lo, v.Agg[0].S), sApp("<", v.Agg[0].S, fmt.Sprint(n))))
 	fr.env[x] = v
 	_ = fc
+}
+
+type elemHeap struct {
+	heap string
+	sort string // element sort (Int/Bool)
+	typ  types.Type
+}
+
+// elemHeaps: the heap variables that hold the elements of a slice/array with element type el
+func (fr *Frame) elemHeaps(el types.Type) []elemHeap {
+	fc := fr.fc
+	if _, isStruct := el.Underlying().(*types.Struct); isStruct && !isBigInt(el) {
+		var ls []leaf
+		leafFields(el, "", &ls)
+		var out []elemHeap
+		for _, l := range ls {
+			if l.sub {
+				fc.unsupported("slice element type %s embeds a big.Int or array by value", el)
+				continue
+			}
+			out = append(out, elemHeap{elemFieldHeap(fc, el, l.path, l.typ), sortOf(l.typ), l.typ})
+		}
+		return out
+	}
+	if isAggType(el) {
+		fc.unsupported("slice of aggregates %s", el)
+		return nil
+	}
+	h := heapElem(el)
+	fc.regVar(h, arr2Sort(sortOf(el)))
+	return []elemHeap{{h, sortOf(el), el}}
 }
